@@ -917,12 +917,22 @@ func (g *GoFakeS3) deleteMulti(bucket string, w http.ResponseWriter, r *http.Req
 	var err error
 	var out MultiDeleteResult
 	if g.versioned == nil {
-		keys := make([]string, len(in.Objects))
-		for i, o := range in.Objects {
-			keys[i] = o.Key
+		keys := make([]string, 0, len(in.Objects))
+		var noSuchVersion []ObjectID
+		for _, o := range in.Objects {
+			if o.VersionID != "" && o.VersionID != "null" {
+				// The entry names one version. Without versioning the object
+				// is the version 'null' and nothing else exists: there is
+				// nothing to delete, least of all the object itself. (As in
+				// S3, and in the versioned backend, that is no error.)
+				noSuchVersion = append(noSuchVersion, o)
+				continue
+			}
+			keys = append(keys, o.Key)
 		}
 
 		out, err = g.storage.DeleteMulti(bucket, keys...)
+		out.Deleted = append(out.Deleted, noSuchVersion...)
 	} else {
 		// As for the versionId query parameter (see versionFromQuery), 'null'
 		// names the version without an ID; backends do not know that string.
